@@ -184,6 +184,15 @@ def run_async(desc, tier, seed, res):
     async def main(sim):
         await sim.connect()
         d = sim.driver
+        if driver in ("luba", "sci") and desc["mode"] == "classes":
+            # line noise before any traffic: one packet with a damaged checksum; every well-formed packet after it must
+            # still be understood
+            from spec import wire_formats as W
+            bad = bytearray(W.luba_event_received(bytes([0x12]), 8) if driver == "luba" else W.sci_frame(0x03, 0, 0x12, 0x34))
+            bad[-1] ^= 0x5A
+            sim.dev.send_whole(0.0, bytes(bad))
+            res.hit("damaged_packet_injected")
+            await asyncio.sleep(0.2)
         if desc["mode"] == "seq":
             # refusals first: a refused command must leave nothing behind that a later send (hundreds later) trips over
             await refuse_all(d)
@@ -523,6 +532,42 @@ def run_legacy(seed, res):
                 res.violation("C18/unipi/unsupported-length-not-refused", f"a {nbits}-bit frame was encoded", {"bits": nbits})
             except Exception:
                 pass
+        # the synchronous driver writes the register pair to the send registers of its own bus (two registers per bus from
+        # 13 on, reply counter + two data registers per bus from 1 on: pinned to the reviewed map of the Unipi firmware)
+        class FakeArm:
+            def __init__(self, *a, **kw):
+                self.writes, self.reads = [], []
+
+            def write_regs(self, reg, values):
+                self.writes.append((reg, tuple(values)))
+
+            def read_regs(self, reg, n):
+                self.reads.append((reg, n))
+                return tuple([0] * n)
+        orig_arm, orig_sleep = U.RemoteArm, U.sleep
+        U.RemoteArm, U.sleep = FakeArm, (lambda t: None)
+        try:
+            import dali.gear.general as gg_
+            from dali import address as A_
+            for bus_no in range(4):
+                drv = U.SyncUnipiDALIDriver(bus=bus_no)
+                for c in (gg_.DAPC(A_.GearShort(3), 77), gg_.SetFadeTime(A_.GearShort(5)), gg_.QueryStatus(A_.GearShort(9))):
+                    drv.backend.writes.clear()
+                    drv.backend.reads.clear()
+                    res.evaluations += 1
+                    res.hit("unipi_bus_registers_checked")
+                    drv.send(c)
+                    exp_w = [(13 + 2 * bus_no, tuple(drv.construct(c)))] * (2 if c.sendtwice else 1)
+                    if drv.backend.writes != exp_w:
+                        res.violation("C18/unipi/send-register", f"bus {bus_no}: {c} written as {drv.backend.writes}, the register map "
+                                      f"prescribes {exp_w}", {"driver": "unipi", "bus": bus_no, "command": str(c)})
+                    bad_reads = [x for x in drv.backend.reads if x[0] not in (1 + 3 * bus_no, 38 + bus_no // 2)]
+                    if c.response is not None and (bad_reads or not drv.backend.reads):
+                        res.violation("C18/unipi/receive-register", f"bus {bus_no}: reply polled at registers {sorted(set(drv.backend.reads))}, "
+                                      f"the map prescribes {1 + 3 * bus_no} (and {38 + bus_no // 2} for COMPARE collisions)",
+                                      {"driver": "unipi", "bus": bus_no})
+        finally:
+            U.RemoteArm, U.sleep = orig_arm, orig_sleep
         res.hit("extract_codes_checked")
         g = ud.extract((0x100, 0x5A))
         if not (isinstance(g, frame.BackwardFrame) and g.as_integer == 0x5A):
